@@ -417,3 +417,33 @@ pub fn run_interleaved(
         interleave_with(tc, (0..n).map(|_| Defaulting(Core::new(spec.clone(), sigs))).collect(), sched, seed, cap)
     }
 }
+
+
+// ---------------------------------------------------------------------------------------------
+// a test embedded in a .dig document
+
+/// A .dig document with one labelled pin per signal (a bidirectional signal is an In pin: the
+/// loader infers the rest from the header) and one test holding `text`.
+pub fn dig_xml(text: &str, sigs: &[Sig]) -> String {
+    use crate::digdoc::*;
+    let mut elements: Vec<Element> = sigs
+        .iter()
+        .map(|s| {
+            let (kind, default) = match s.kind {
+                Kind::Out => (PinKind::Out, None),
+                Kind::In(InVal::Val(v)) | Kind::Bidir(InVal::Val(v)) => (PinKind::In, Some((Some(v), Some(false)))),
+                Kind::In(InVal::Z) | Kind::Bidir(InVal::Z) => (PinKind::In, Some((Some(0), Some(true)))),
+            };
+            Element::Pin(Pin { kind, label: Some(s.name.clone()), bits: Some(s.bits), default })
+        })
+        .collect();
+    elements.push(Element::Test(DigTest { label: Some("t".into()), source: text.to_string() }));
+    DigDoc { elements }.render(&mut crate::choice::Ch::new(&[]))
+}
+
+/// parse the document and load its test; None if either fails (loading .dig documents is C16's
+/// business), Err for a panic
+pub fn load_via_dig(text: &str, sigs: &[Sig]) -> Result<Option<TestCase>, PanicSig> {
+    let xml = dig_xml(text, sigs);
+    guarded(|| digital_test_runner::dig::File::parse(&xml).ok().and_then(|f| f.load_test(0).ok()))
+}
